@@ -33,11 +33,13 @@ import (
 	"sync/atomic"
 	"time"
 
+	"github.com/krotik/common/datautil"
 	"github.com/krotik/ecal/engine"
 	"github.com/krotik/ecal/engine/pool"
 	"github.com/krotik/ecal/interpreter"
 	"github.com/krotik/ecal/parser"
 	"github.com/krotik/ecal/stdlib"
+	"github.com/krotik/ecal/util"
 	"github.com/krotik/ecal/verifhook"
 )
 
@@ -168,23 +170,28 @@ func (r *c12Renderer) wrapped(b *c12Block, ind string) string {
 	panic("bad kind")
 }
 
-func c12Source(roles [][]*c12Block) string {
+// c12Source renders one SOURCE (module) per role: blocks of one name written in different
+// sources are blocks of the same name.
+func c12Source(roles [][]*c12Block) []string {
 	r := &c12Renderer{}
-	var works []string
+	var srcs []string
 	for i, role := range roles {
+		r.funcs = nil
 		var sb strings.Builder
 		sb.WriteString(fmt.Sprintf("func work%d() {\n", i))
 		for _, b := range role {
 			sb.WriteString(r.wrapped(b, "    "))
 		}
 		sb.WriteString("    return 0\n}\n")
-		works = append(works, sb.String())
-	}
-	src := "ca := 0\ncb := 0\ncc := 0\n" + strings.Join(r.funcs, "") + strings.Join(works, "")
-	for i := range roles {
+		src := ""
+		if i == 0 {
+			src = "ca := 0\ncb := 0\ncc := 0\n"
+		}
+		src += strings.Join(r.funcs, "") + sb.String()
 		src += fmt.Sprintf("sink s%d\n    kindmatch [ \"w%d\" ],\n    {\n        work%d()\n        x.fin()\n    }\n", i, i, i)
+		srcs = append(srcs, src)
 	}
-	return src
+	return srcs
 }
 
 // ---------------------------------------------------------------- generator
@@ -305,14 +312,25 @@ type c12Func struct {
 }
 
 func (g *c12Func) Run(instanceID string, vs parser.Scope, is map[string]interface{}, tid uint64, args []interface{}) (interface{}, error) {
-	// occupants are told apart by thread id AND by kind of thread (a sink execution carries its
-	// monitor in the instance state): a pool worker and a directly evaluating thread that were
-	// given the same id are two occupants
-	key := tid << 1
-	if _, sink := is["monitor"]; sink {
-		key |= 1
+	// an occupant is a GOROUTINE, whatever thread id the interpreter was told: two goroutines that
+	// evaluate with one id (a generator that repeats ids, a closure that captured somebody else's
+	// id, a hard-coded id) are two occupants
+	return g.f(tid, c12Goid(), args)
+}
+
+// c12Goid returns the id of the calling goroutine (first line of its stack: "goroutine N [").
+func c12Goid() uint64 {
+	var buf [64]byte
+	b := buf[:runtime.Stack(buf[:], false)]
+	b = b[len("goroutine "):]
+	var id uint64
+	for _, c := range b {
+		if c < '0' || c > '9' {
+			break
+		}
+		id = id*10 + uint64(c-'0')
 	}
-	return g.f(tid, key, args)
+	return id
 }
 func (g *c12Func) DocString() (string, error) { return "C12 harness function", nil }
 
@@ -430,12 +448,15 @@ func c12Exec(payload string) string {
 	if mode == "I" {
 		return c12Ids(threads, iters, f[4])
 	}
+	if mode == "C" {
+		return c12Cold(threads, iters, seed, f[4])
+	}
 	var roles [][]*c12Block
 	for _, rt := range strings.Split(f[4], "|") {
 		pos := 0
 		roles = append(roles, c12ParseBlocks(rt, &pos))
 	}
-	src := c12Source(roles)
+	srcs := c12Source(roles)
 
 	run := &c12Run{stacks: map[uint64][]int{}, seed: seed}
 	for i := range run.inside {
@@ -485,7 +506,9 @@ func c12Exec(payload string) string {
 	switch mode {
 	case "S":
 		nSink = threads
-	case "D", "G": // G = D with a debugger attached whose lock state is polled all the time
+	case "D", "G", "J": // G = D with a debugger attached whose lock state is polled all the time
+		// J = the threads are debugger clients: each evaluates its role through `inject` while a
+		// thread is suspended at a breakpoint (concurrent injections are independent threads)
 		nDirect = threads
 	default: // M, L
 		nSink = threads / 2
@@ -499,8 +522,17 @@ func c12Exec(payload string) string {
 	}
 
 	lg := &memLog{}
-	erp := interpreter.NewECALRuntimeProvider("c12", nil, lg)
-	defer erp.Cron.Stop()
+	var erp *interpreter.ECALRuntimeProvider
+	if c12Bare {
+		// cold-start runs create thousands of providers: the same object without the cron thread
+		// NewECALRuntimeProvider starts (nothing in the generated programs uses it)
+		erp = &interpreter.ECALRuntimeProvider{Name: "c12", ImportLocator: &util.MemoryImportLocator{}, Logger: lg,
+			Mutexes: make(map[string]*sync.Mutex), MutexLog: datautil.NewRingBuffer(1024),
+			MutexeOwners: make(map[string]uint64), MutexesMutex: &sync.Mutex{}}
+	} else {
+		erp = interpreter.NewECALRuntimeProvider("c12", nil, lg)
+		defer erp.Cron.Stop()
+	}
 	workers := nSink
 	if workers < 1 {
 		workers = 1
@@ -508,15 +540,18 @@ func c12Exec(payload string) string {
 	erp.Processor = engine.NewProcessor(workers)
 	erp.Processor.SetFailOnFirstErrorInTriggerSequence(true)
 	vs := newGlobalScope()
-	ast, err := parser.ParseWithRuntime("c12", src, erp)
-	if err != nil {
-		return "parse-error " + hx(err.Error())
-	}
-	if err = ast.Runtime.Validate(); err != nil {
-		return "validate-error " + hx(err.Error())
-	}
-	if _, err = ast.Runtime.Eval(vs, make(map[string]interface{}), erp.NewThreadID()); err != nil {
-		return "eval-error " + hx(err.Error())
+	mainTid := erp.NewThreadID()
+	for i, src := range srcs {
+		ast, err := parser.ParseWithRuntime(fmt.Sprintf("c12r%d.ecal", i), src, erp)
+		if err != nil {
+			return "parse-error " + hx(err.Error())
+		}
+		if err = ast.Runtime.Validate(); err != nil {
+			return "validate-error " + hx(err.Error())
+		}
+		if _, err = ast.Runtime.Eval(vs, make(map[string]interface{}), mainTid); err != nil {
+			return "eval-error " + hx(err.Error())
+		}
 	}
 
 	total := 0
@@ -563,6 +598,43 @@ func c12Exec(payload string) string {
 		}
 	}
 	defer func() { close(stopPoll); pollWg.Wait() }()
+
+	var dbgJ util.ECALDebugger
+	var parkTid uint64
+	parkDone := make(chan struct{})
+	if mode == "J" {
+		dbgJ = interpreter.NewECALDebugger(vs)
+		dbgJ.BreakOnError(false) // (a raise inside a block would suspend its thread — with the lock)
+		erp.Debugger = dbgJ
+		park, perr := parser.ParseWithRuntime("park", "parked := 1\nparked := 2\n", erp)
+		if perr == nil {
+			perr = park.Runtime.Validate()
+		}
+		if perr != nil {
+			return "parse-error " + hx(perr.Error())
+		}
+		dbgJ.SetBreakPoint("park", 2)
+		parkTid = erp.NewThreadID()
+		go func() {
+			defer close(parkDone)
+			park.Runtime.Eval(vs, make(map[string]interface{}), parkTid)
+		}()
+		suspended := false
+		for k := 0; k < 5000 && !suspended; k++ {
+			if dbgJ.InjectValue(parkTid, "probe", "1") == nil {
+				suspended = true
+			} else {
+				time.Sleep(time.Millisecond)
+			}
+		}
+		if !suspended {
+			return "debugger-setup-failed: no thread suspended at the breakpoint"
+		}
+		defer func() {
+			dbgJ.Continue(parkTid, util.Resume)
+			<-parkDone
+		}()
+	}
 
 	var oldIDs []uint64
 	if mode == "L" {
@@ -621,7 +693,11 @@ func c12Exec(payload string) string {
 							}
 						}
 					}()
-					_, e = call.Runtime.Eval(vs, make(map[string]interface{}), tid)
+					if dbgJ != nil {
+						e = dbgJ.InjectValue(parkTid, fmt.Sprintf("v%d", i), fmt.Sprintf("work%d()", role))
+					} else {
+						_, e = call.Runtime.Eval(vs, make(map[string]interface{}), tid)
+					}
 					if e != nil && strings.Contains(e.Error(), "c12-uncaught") {
 						terminated()
 						e = nil
@@ -757,7 +833,7 @@ wait:
 	}
 	if deadlock {
 		// stuck goroutines cannot be stopped: report and let the parent restart the process
-		if fh, err := os.OpenFile("c12.deadlocks", os.O_APPEND|os.O_CREATE|os.O_WRONLY, 0644); err == nil {
+		if fh, err := os.OpenFile("c12.deadlocks", os.O_APPEND|os.O_CREATE|os.O_WRONLY, 0644); err == nil && mode != "J" {
 			fmt.Fprintln(fh, payload)
 			fh.Close()
 		}
@@ -769,6 +845,52 @@ wait:
 		panic("DEADLOCK " + res)
 	}
 	return res + " T=" + trace
+}
+
+// c12Cold = cold start: `reps` FRESH providers, on each of them `threads` gated threads run their
+// role once — every first use of a name (creation of its mutex, first owner entry) happens under
+// contention. The runs end quiescent, so their traces are concatenated and replayed as one.
+var c12Bare bool
+
+func c12Cold(threads, reps int, seed uint64, roles string) string {
+	c12Bare = true
+	defer func() { c12Bare = false }()
+	var occ, cnt, end [3]int
+	doneA, doneB, term := 0, 0, 0
+	var traces []string
+	for k := 0; k < reps; k++ {
+		res := c12Exec(fmt.Sprintf("D %d 1 %d %s", threads, seed+uint64(k), roles))
+		sum, tr := res, "-"
+		if i := strings.Index(res, " T="); i >= 0 {
+			sum, tr = res[:i], res[i+3:]
+		}
+		var o, c [3]int
+		var da, db, mt, tm, e0, e1 int
+		if n, _ := fmt.Sscanf(sum, "occ=%d,%d,%d cnt=%d,%d,%d done=%d/%d meet=%d term=%d end=%d,%d",
+			&o[0], &o[1], &o[2], &c[0], &c[1], &c[2], &da, &db, &mt, &tm, &e0, &e1); n != 12 || strings.Contains(sum, "errors=") {
+			return fmt.Sprintf("provider %d: %s", k, res)
+		}
+		for i := 0; i < 3; i++ {
+			if o[i] > occ[i] {
+				occ[i] = o[i]
+			}
+			cnt[i] += c[i]
+		}
+		doneA += da
+		doneB += db
+		term += tm
+		end[0] += e0
+		end[1] += e1
+		if tr != "-" {
+			traces = append(traces, tr)
+		}
+	}
+	tr := strings.Join(traces, ".")
+	if tr == "" {
+		tr = "-"
+	}
+	return fmt.Sprintf("occ=%d,%d,%d cnt=%d,%d,%d done=%d/%d meet=0 term=%d end=%d,%d T=%s",
+		occ[0], occ[1], occ[2], cnt[0], cnt[1], cnt[2], doneA, doneB, term, end[0], end[1], tr)
 }
 
 // c12Ids hammers the thread-id generator: g goroutines request per ids each, all starting
@@ -1009,6 +1131,24 @@ func init() {
 					emit("G", 16, 150, "an()bn()|bn(cn())")
 					g.Count("debugger lock state polled")
 				}
+			}
+			// cold start: every first use of a name under contention, on many fresh providers
+			for k := 0; k < 6; k++ {
+				emit("C", 16, 300, "an()")
+			}
+			for k := 0; k < 3; k++ {
+				emit("C", 16, 150, "an(bn())|bn(cn())|cn()")
+				emit("C", 8, 300, "bn()|bn()")
+			}
+			g.Count("cold start")
+			// debugger clients: concurrent `inject` commands are independent threads and must exclude
+			// each other in the blocks of the functions they call (while InjectValue evaluates with
+			// the literal thread id 999 — fact literalTids — these cases show the known finding
+			// inject-shares-thread-999)
+			for _, n := range []int{2, 8, 16} {
+				emit("J", n, 6, "an(an())ae()|bn()ar(cn())")
+				emit("J", n, 8, "an()")
+				g.Count("concurrent debugger injections")
 			}
 			// an error / a Go panic that ENDS the thread while it holds the lock (nested too)
 			for _, mode := range []string{"D", "S", "M", "L"} {
